@@ -11,6 +11,15 @@ func messagesSize(ms []Message) uint16 {
 	return l
 }
 
+// messagesWideSize returns the size of all messages including the headers without truncating it to the width of the length field
+func messagesWideSize(ms []Message) uint64 {
+	var l uint64
+	for i := range ms {
+		l += uint64(RSCP_DATA_HEADER_SIZE) + ms[i].size()
+	}
+	return l
+}
+
 // validateResponses checks the integrity of the response
 // each request must contain a valid tag and data type and the data type must match the value
 func validateResponses(messages []Message) error {
